@@ -1,5 +1,6 @@
 import Qhttp.Props.C01
 import Qhttp.Lemmas.C02Run
+import Qhttp.Lemmas.C02Close
 import Qhttp.Lemmas.C02C01
 import Qhttp.Lemmas.C02First
 import Qhttp.Lemmas.BytesLemmas
@@ -503,5 +504,342 @@ example : C01.expect envEx [66, 65, 68] = none ∧ ¬ CRLF2 <:+: [66, 65, 68] ++
   ⟨by decide +kernel, by rw [← isInfixB_iff]; decide +kernel, by decide +kernel⟩
 example : Obs.countP Obs.isHp (Scenario.run envEx (snapScenario [[66, 65, 68, 13], [10, 13], [10, 120]])).log = 0 := by
   decide +kernel
+
+/-! ## The client leaves
+
+  Scenario shape `closingEvents`: `new :: pre ++ peerClose :: post` — the Socket is created, the
+  client sends segments (`pre`: `feed`, `turn`, idle-context reads), then LEAVES (the transport
+  reports `readChannelFinished` and `disconnected`; this may be before the head is complete, in the
+  middle of the declared body, exactly at its end, or after it), then the event loop keeps
+  turning and the application keeps reading (`post`: `turn`, idle-context reads; nothing more can
+  arrive).  Reader applications are as before; in particular their reaction to `disconnected`
+  may read. -/
+
+/-- `holds` when the connection was ended: the two "left to run" clauses do not apply -/
+theorem holds_of_facts_ended (env : Env) (sc : Scenario) (obs : List Obs) (r : Req)
+    (hreq : req env (Scenario.fed sc.events) = some r)
+    (h1 : Obs.reads obs <+: entitled r)
+    (h2 : Obs.countP Obs.isHp obs ≤ 1) (h3 : Obs.countP Obs.isRcf obs ≤ 1)
+    (h4 : walk sc.events r obs 0 false none = true)
+    (h5 : ended sc obs = true) :
+    holds env sc obs = true := by
+  unfold holds
+  rw [hreq]
+  have e1 : (Obs.reads obs).isPrefixOf (entitled r) = true := List.isPrefixOf_iff_prefix.mpr h1
+  simp [e1, h2, h3, h4, h5]
+
+theorem ended_of_closing {app : App} {evs : List Event} (obs : List Obs) (h : closingEvents evs = true) :
+    ended ⟨app, evs⟩ obs = true := by
+  obtain ⟨pre, post, rfl, _, _⟩ := (closingEvents_iff evs).mp h
+  simp [ended]
+
+/-- **C02 when the client leaves, main theorem.** For every environment, every reader application
+    and every scenario `new :: (feed seg | turn | idle read)* ++ peerClose :: (turn | idle read)*`
+    the executable predicate holds on the model's run: whatever part of the declared body had
+    arrived when the client left, the reader obtains a prefix of the entitled bytes,
+    `headersParsed` and `readChannelFinished` are emitted at most once, and `readChannelFinished`
+    never before `|head| + 4 + N` bytes have arrived. -/
+theorem holds_run_closing (env : Env) (app : App) (happ : ReaderApp app) (evs : List Event)
+    (hshape : closingEvents evs = true) :
+    holds env ⟨app, evs⟩ (Scenario.run env ⟨app, evs⟩).log = true := by
+  cases hreq : req env (Scenario.fed evs) with
+  | none => unfold holds; simp only [hreq]
+  | some r =>
+    obtain ⟨head, hfin, acc, hhl⟩ := req_some hreq
+    obtain ⟨pre, post, hevs, hpre, hpost⟩ := (closingEvents_iff evs).mp hshape
+    have hR : RInv evs head r.n (Scenario.fed evs) (Sock.run env app evs) :=
+      closing_inv env app happ acc r.rest hfin pre post hevs hpre hpost evs [] (by simp)
+    have hp := hR.reads_prefix hfin (List.prefix_refl _)
+    obtain ⟨chp, crcf, cwalk, _⟩ := hR.counts
+    refine holds_of_facts_ended env ⟨app, evs⟩ _ r hreq hp ?_ ?_ ?_ (ended_of_closing _ hshape)
+    · show Obs.countP Obs.isHp (Sock.run env app evs).log ≤ 1
+      rw [chp]; split <;> omega
+    · show Obs.countP Obs.isRcf (Sock.run env app evs).log ≤ 1
+      rw [crcf]; split <;> omega
+    · show walk evs r (Sock.run env app evs).log 0 false none = true
+      rw [walk_eq, hhl]; exact cwalk
+
+/-! ### in plain terms
+
+  `Closing env head N rest evs`: the scenario has the closing shape and its byte stream — all the
+  client sent before it left — is an accepted head declaring `N ≥ 0` body bytes, the first blank
+  line, and `rest`: the part of the body that was sent (`rest.length < N`: the client left
+  mid-body), or the body and whatever followed it. -/
+
+structure Closing (env : Env) (head : Bytes) (N : Nat) (rest : Bytes) (evs : List Event) : Prop where
+  shape : closingEvents evs = true
+  fed : Scenario.fed evs = head ++ CRLF2 ++ rest
+  first : ¬ CRLF2 <:+: head ++ CRLF2.dropLast
+  accepted : ∃ f, C01.expect env head = some f ∧ f.total = (N : Int)
+
+/-! what `RInv` says, for any scenario shape that establishes it -/
+section of_inv
+variable {env : Env} {head rest fed fedF : Bytes} {N : Nat} {evs : List Event} {s : Sock}
+
+theorem RInv.arrived_lt (hR : RInv evs head N fed s) (hF : fedF = head ++ CRLF2 ++ rest)
+    (hpre : fed <+: fedF) (hrs : s.rs = .headers) : fed.length < head.length + 4 := by
+  obtain ⟨a, hb, B, hm, _, hrel⟩ := hR
+  have hnone := (hrel.1 hrs).2
+  apply Nat.lt_of_not_le
+  intro hle
+  have h1 : head ++ CRLF2 <+: fedF := by rw [hF]; exact List.prefix_append _ _
+  have h2 : head ++ CRLF2 <+: fed :=
+    List.prefix_of_prefix_length_le h1 hpre (by simp [CRLF2_length]; omega)
+  obtain ⟨t, ht⟩ := h2
+  exact breakOn_none hnone ⟨head, t, ht⟩
+
+theorem RInv.readable_exact (hR : RInv evs head N fed s) (hF : fedF = head ++ CRLF2 ++ rest)
+    (hbrk : breakOn CRLF2 fedF = some (head, rest)) (hpre : fed <+: fedF) :
+    Obs.reads s.log ++ (Sock.readAll s).2 = (fed.drop (head.length + 4)).take N := by
+  by_cases hrs : s.rs = .headers
+  · have hlt := hR.arrived_lt hF hpre hrs
+    obtain ⟨a, hb, B, hm, _, _⟩ := hR
+    obtain ⟨_, _, _, e4, e5, _⟩ := hm.hdr hrs
+    rw [readAll_headers _ hrs e4, e5, List.drop_of_length_le (by omega)]; simp
+  · obtain ⟨rest', t, e1, _, e3, _⟩ := hR.rest_eq hbrk hpre hrs
+    obtain ⟨a, hb, B, hm, _, _⟩ := hR
+    rw [readAll_data _ hm.ioOpen hrs, e1]
+    have : (head ++ CRLF2 ++ rest').drop (head.length + 4) = rest' := by
+      apply List.drop_left'; simp [CRLF2_length]
+    rw [this, ← e3]; simp
+
+theorem RInv.notifications (hR : RInv evs head N fed s) (hF : fedF = head ++ CRLF2 ++ rest)
+    (hbrk : breakOn CRLF2 fedF = some (head, rest)) (hpre : fed <+: fedF) :
+    Obs.countP Obs.isHp s.log ≤ 1 ∧ Obs.countP Obs.isRcf s.log ≤ 1 ∧
+    (Obs.countP Obs.isHp s.log = 1 ↔ head.length + 4 ≤ fed.length) ∧
+    (Obs.countP Obs.isRcf s.log = 1 ↔ head.length + 4 + N ≤ fed.length) := by
+  obtain ⟨chp, crcf, _, _⟩ := hR.counts
+  by_cases hrs : s.rs = .headers
+  · have hlt := hR.arrived_lt hF hpre hrs
+    rw [chp, crcf, hrs]
+    simp; omega
+  · obtain ⟨rest', t, e1, _, _, e4⟩ := hR.rest_eq hbrk hpre hrs
+    have hlen : fed.length = head.length + 4 + rest'.length := by
+      rw [e1]; simp [CRLF2_length]; omega
+    rw [chp, crcf, if_neg hrs]
+    by_cases hfin : s.rs = .finished
+    · have := e4.mp hfin
+      rw [if_pos hfin]; simp; omega
+    · have : ¬ N ≤ rest'.length := fun hc => hfin (e4.mpr hc)
+      rw [if_neg hfin]; simp; omega
+
+end of_inv
+
+section closing
+variable {env : Env} {app : App} {head rest : Bytes} {N : Nat} {evs : List Event}
+
+theorem Closing.of_accepted (shape : closingEvents evs = true) (fed : Scenario.fed evs = head ++ CRLF2 ++ rest)
+    (accepted : ∃ f, C01.expect env head = some f ∧ f.total = (N : Int)) : Closing env head N rest evs :=
+  ⟨shape, fed, first_of_accepted env head (by obtain ⟨f, hf, _⟩ := accepted; rw [hf]; rfl), accepted⟩
+
+theorem Closing.brk (h : Closing env head N rest evs) :
+    breakOn CRLF2 (Scenario.fed evs) = some (head, rest) := by
+  rw [h.fed]; exact breakOn_of_not_infix rest (by decide) h.first
+
+/-- the invariant at every point `p` of the run, before and after the client leaves -/
+theorem Closing.inv (h : Closing env head N rest evs) (happ : ReaderApp app) (p q : List Event)
+    (hevs : evs = p ++ q) :
+    RInv evs head N (Scenario.fed p) (Sock.run env app p) ∧ Scenario.fed p <+: Scenario.fed evs := by
+  obtain ⟨f, hf, hN⟩ := h.accepted
+  obtain ⟨pre, post, hsh, hpre, hpost⟩ := (closingEvents_iff evs).mp h.shape
+  refine ⟨closing_inv env app happ (acc_of_expect hf hN) rest h.brk pre post hsh hpre hpost p q hevs, ?_⟩
+  rw [hevs, fed_append]; exact List.prefix_append _ _
+
+/-- once the client has left, everything it sent has arrived -/
+theorem Closing.fed_after (h : Closing env head N rest evs) (pre post1 post2 : List Event)
+    (hevs : evs = .new :: pre ++ .peerClose :: (post1 ++ post2)) :
+    Scenario.fed (.new :: pre ++ .peerClose :: post1) = head ++ CRLF2 ++ rest := by
+  have hidle : ∀ e ∈ post1 ++ post2, idleEvent e = true := by
+    have hc : closingEvents evs = true := h.shape
+    rw [hevs] at hc
+    exact closingTail_idle_after pre (post1 ++ post2) hc
+  rw [← h.fed, hevs]
+  have e1 : Event.new :: pre ++ .peerClose :: post1 = (Event.new :: pre) ++ (.peerClose :: post1) := rfl
+  have e2 : Event.new :: pre ++ .peerClose :: (post1 ++ post2) = (Event.new :: pre) ++ (.peerClose :: (post1 ++ post2)) := rfl
+  rw [e1, e2, fed_append, fed_append, fed_peerClose _ hidle,
+    fed_peerClose post1 (fun e he => hidle e (by simp [he]))]
+
+/-- **(a) end-of-body is never announced early.**  If `readChannelFinished` occurs in the history,
+    the bytes that had arrived before it (those of the external events that had started) include
+    the head, the blank line and all `N` declared body bytes. -/
+theorem closing_rcf_after_body (h : Closing env head N rest evs) (happ : ReaderApp app)
+    (l1 l2 : List Obs) (hlog : (Sock.run env app evs).log = l1 ++ Obs.rcf :: l2) :
+    head.length + 4 + N ≤ arrivedAt evs l1 := by
+  obtain ⟨hR, _⟩ := h.inv happ evs [] (by simp)
+  have hw := hR.counts.2.2.1
+  rw [hlog] at hw
+  exact walkL_rcf _ _ _ _ _ hw
+
+/-- `arrivedAt` is the right measure: between two events it is the number of bytes fed so far -/
+theorem closing_arrivedAt (h : Closing env head N rest evs) (happ : ReaderApp app)
+    (p q : List Event) (hevs : evs = p ++ q) :
+    arrivedAt evs (Sock.run env app p).log = (Scenario.fed p).length :=
+  (h.inv happ p q hevs).1.arrivedAt_eq
+
+/-- **(a), (b) notifications.** At every point between two events, before and after the client
+    leaves: `headersParsed` at most once, and exactly once iff the head and its blank line have
+    arrived; `readChannelFinished` at most once, and exactly once iff moreover `N` body bytes have
+    arrived. -/
+theorem closing_notifications (h : Closing env head N rest evs) (happ : ReaderApp app)
+    (p q : List Event) (hevs : evs = p ++ q) :
+    Obs.countP Obs.isHp (Sock.run env app p).log ≤ 1 ∧
+    Obs.countP Obs.isRcf (Sock.run env app p).log ≤ 1 ∧
+    (Obs.countP Obs.isHp (Sock.run env app p).log = 1 ↔ head.length + 4 ≤ (Scenario.fed p).length) ∧
+    (Obs.countP Obs.isRcf (Sock.run env app p).log = 1 ↔
+      head.length + 4 + N ≤ (Scenario.fed p).length) := by
+  obtain ⟨hR, hpre⟩ := h.inv happ p q hevs
+  exact hR.notifications h.fed h.brk hpre
+
+/-- **(a) a client that leaves mid-body produces no end-of-body notification**: fewer than `N`
+    body bytes were sent, so `readChannelFinished` occurs nowhere in the history of the whole run
+    (the transport's own `readChannelFinished` is not forwarded for a request with a declared
+    length) -/
+theorem closing_no_rcf_midbody (h : Closing env head N rest evs) (happ : ReaderApp app)
+    (hmid : rest.length < N) : Obs.rcf ∉ (Sock.run env app evs).log := by
+  obtain ⟨_, h2, _, h4⟩ := closing_notifications h happ evs [] (by simp)
+  have hlen : (Scenario.fed evs).length = head.length + 4 + rest.length := by
+    rw [h.fed]; simp [CRLF2_length]; omega
+  have h0 : Obs.countP Obs.isRcf (Sock.run env app evs).log = 0 := by
+    have : ¬ Obs.countP Obs.isRcf (Sock.run env app evs).log = 1 := fun hc => by
+      have := h4.mp hc; omega
+    omega
+  intro hm
+  have : 0 < Obs.countP Obs.isRcf (Sock.run env app evs).log := by
+    unfold Obs.countP
+    exact List.length_pos_of_mem (List.mem_filter.mpr ⟨hm, rfl⟩)
+  omega
+
+/-- **(c) nothing lost, duplicated, reordered, nothing beyond `N`**, at every point between two
+    events, before and after the client leaves: what the reader has obtained so far followed by
+    what `readAll()` would return now is exactly the first `min N arrived` bytes after the blank
+    line. -/
+theorem closing_readable_exact (h : Closing env head N rest evs) (happ : ReaderApp app)
+    (p q : List Event) (hevs : evs = p ++ q) :
+    Obs.reads (Sock.run env app p).log ++ (Sock.readAll (Sock.run env app p)).2 =
+      ((Scenario.fed p).drop (head.length + 4)).take N := by
+  obtain ⟨hR, hpre⟩ := h.inv happ p q hevs
+  exact hR.readable_exact h.fed h.brk hpre
+
+/-- **(c) reads form a prefix of the entitled body**, at every point of the run -/
+theorem closing_reads_prefix (h : Closing env head N rest evs) (happ : ReaderApp app)
+    (p q : List Event) (hevs : evs = p ++ q) :
+    Obs.reads (Sock.run env app p).log <+: rest.take N := by
+  obtain ⟨hR, hpre⟩ := h.inv happ p q hevs
+  exact hR.reads_prefix h.brk hpre
+
+/-- **(c) arrived bytes stay readable after the client has left.**  At every point `post1` after
+    the `peerClose` (a reader application never closes the Socket, so the proviso "until the
+    application closes the connection" is met throughout): reads so far followed by what
+    `readAll()` would return now is everything the client sent of the body, cut at `N`; and
+    `bytesAvailable()` announces exactly the length of that `readAll()`. -/
+theorem closing_retained (h : Closing env head N rest evs) (happ : ReaderApp app)
+    (pre post1 post2 : List Event) (hevs : evs = .new :: pre ++ .peerClose :: (post1 ++ post2)) :
+    Obs.reads (Sock.run env app (.new :: pre ++ .peerClose :: post1)).log ++
+        (Sock.readAll (Sock.run env app (.new :: pre ++ .peerClose :: post1))).2 = rest.take N ∧
+    Sock.bytesAvailable (Sock.run env app (.new :: pre ++ .peerClose :: post1)) =
+        (Sock.readAll (Sock.run env app (.new :: pre ++ .peerClose :: post1))).2.length := by
+  have hsplit : evs = (.new :: pre ++ .peerClose :: post1) ++ post2 := by rw [hevs]; simp
+  refine ⟨?_, (h.inv happ _ post2 hsplit).1.avail_exact⟩
+  rw [closing_readable_exact h happ _ post2 hsplit, h.fed_after pre post1 post2 hevs]
+  have : (head ++ CRLF2 ++ rest).drop (head.length + 4) = rest := by
+    apply List.drop_left'; simp [CRLF2_length]
+  rw [this]
+
+/-- a reader that ends with `readAll()` after the client has left has obtained everything the
+    client sent of the body (up to `N` bytes) -/
+theorem closing_complete (h : Closing env head N rest evs) (happ : ReaderApp app)
+    (pre post1 : List Event) (hevs : evs = .new :: pre ++ .peerClose :: (post1 ++ [.api .readAll])) :
+    Obs.reads (Sock.run env app evs).log = rest.take N := by
+  -- after the final `readAll` nothing is left to read
+  obtain ⟨hRp, _⟩ := h.inv (app := app) happ (.new :: pre ++ .peerClose :: post1) [.api .readAll]
+    (by rw [hevs]; simp)
+  have hfp := h.fed_after pre post1 [.api .readAll] hevs
+  rw [← h.fed] at hfp
+  rw [hfp] at hRp
+  have hrun : Sock.run env app evs =
+      (Sock.stepK env app (Sock.run env app (.new :: pre ++ .peerClose :: post1),
+          ((Event.new :: pre ++ .peerClose :: post1).foldl (Sock.stepK env app) ({}, 0)).2)
+        (.api .readAll)).1 := by
+    have : evs = (.new :: pre ++ .peerClose :: post1) ++ [.api .readAll] := by rw [hevs]; simp
+    rw [this]; simp [Sock.run, List.foldl_append]
+  rw [hrun]
+  exact (hRp.final_readAll_partial env app h.brk _).1
+
+/-- **`bytesAvailable()` is exact** (history form, covers calls made inside reactions, the
+    reaction to `disconnected` included) -/
+theorem closing_avail_exact_log (h : Closing env head N rest evs) (happ : ReaderApp app)
+    (l1 l2 : List Obs) (n : Nat) (b : Bytes)
+    (hlog : (Sock.run env app evs).log = l1 ++ Obs.av n :: Obs.rd b :: l2) : b.length = n := by
+  obtain ⟨hR, _⟩ := h.inv happ evs [] (by simp)
+  have hw := hR.counts.2.2.1
+  rw [hlog] at hw
+  exact walkL_av_rd _ _ _ _ _ _ _ hw
+
+/-- a read that returns at least one byte comes after `headersParsed` -/
+theorem closing_hp_before_data (h : Closing env head N rest evs) (happ : ReaderApp app)
+    (l1 l2 : List Obs) (b : Bytes) (hlog : (Sock.run env app evs).log = l1 ++ Obs.rd b :: l2)
+    (hb : b ≠ []) : Obs.hp ∈ l1 := by
+  obtain ⟨hR, _⟩ := h.inv happ evs [] (by simp)
+  have hw := hR.counts.2.2.1
+  rw [hlog] at hw
+  exact walkL_rd_hp _ _ _ _ _ _ hw hb
+
+end closing
+
+/-! ### non-vacuity: declared length 5, three body bytes arrive, the client leaves -/
+
+/-- `POST /a HTTP/1.1\r\nContent-Length: 5` -/
+def headEx5 : Bytes := [80, 79, 83, 84, 32, 47, 97, 32, 72, 84, 84, 80, 47, 49, 46, 49, 13, 10, 67, 111, 110, 116, 101, 110, 116, 45, 76, 101, 110, 103, 116, 104, 58, 32, 53]
+
+/-- head and `\r\n\r` | `\nab` | `c` | the client leaves | turn | `bytesAvailable` | `readAll` -/
+def evsCl : List Event :=
+  [.new, .feed (headEx5 ++ [13, 10, 13]), .feed [10, 97, 98], .turn, .feed [99], .peerClose, .turn,
+   .api .avail, .api .readAll]
+
+example : closingEvents evsCl = true := by decide
+example : ReaderApp lazyScript.app := ReaderApp.of_script _ (by decide)
+example : (req envEx (Scenario.fed evsCl)).map (fun r => (r.headLen, r.n, r.rest)) = some (39, 5, [97, 98, 99]) := by decide +kernel
+example : holds envEx ⟨lazyScript.app, evsCl⟩ (Scenario.run envEx ⟨lazyScript.app, evsCl⟩).log = true := by decide +kernel
+example : holds envEx ⟨lazyScript.app, evsCl⟩ (Scenario.run envEx ⟨lazyScript.app, evsCl⟩).log = true :=
+  holds_run_closing envEx lazyScript.app (ReaderApp.of_script _ (by decide)) evsCl (by decide)
+/-- the lazy reader got one byte per `readyRead` and the third from idle context after the client
+    had left; `disconnected` was delivered, `readChannelFinished` was not -/
+example : Obs.reads (Scenario.run envEx ⟨lazyScript.app, evsCl⟩).log = [97, 98, 99] := by decide +kernel
+example : Obs.countP Obs.isHp (Scenario.run envEx ⟨lazyScript.app, evsCl⟩).log = 1 ∧
+    Obs.countP Obs.isRcf (Scenario.run envEx ⟨lazyScript.app, evsCl⟩).log = 0 ∧
+    Obs.countP Obs.isDc (Scenario.run envEx ⟨lazyScript.app, evsCl⟩).log = 1 := by decide +kernel
+
+/-- the hypotheses of the plain-terms theorems are satisfiable (same scenario) -/
+theorem closingEx : Closing envEx headEx5 5 [97, 98, 99] evsCl where
+  shape := by decide
+  fed := by decide +kernel
+  first := by rw [← isInfixB_iff]; decide +kernel
+  accepted := by
+    have ht : (C01.expect envEx headEx5).map (·.total) = some 5 := by decide +kernel
+    cases h : C01.expect envEx headEx5 with
+    | none => rw [h] at ht; exact absurd ht (by simp)
+    | some f => rw [h] at ht; exact ⟨f, rfl, by simpa using ht⟩
+
+/-- ... and so are the hypotheses about the shape of the event list and of the history -/
+example : evsCl = .new :: [.feed (headEx5 ++ [13, 10, 13]), .feed [10, 97, 98], .turn, .feed [99]] ++
+    .peerClose :: ([.turn, .api .avail] ++ [.api .readAll]) := rfl
+example : Obs.rcf ∉ (Sock.run envEx lazyScript.app evsCl).log :=
+  closing_no_rcf_midbody closingEx (ReaderApp.of_script _ (by decide)) (by decide)
+example : Obs.reads (Sock.run envEx lazyScript.app evsCl).log = [97, 98, 99] :=
+  closing_complete closingEx (ReaderApp.of_script _ (by decide))
+    [.feed (headEx5 ++ [13, 10, 13]), .feed [10, 97, 98], .turn, .feed [99]] [.turn, .api .avail] rfl
+
+/-- the same stream with the whole body (`abcde`) before the client leaves: `readChannelFinished`
+    once, after all five bytes (the hypothesis of `closing_rcf_after_body` is satisfiable) -/
+def evsClFull : List Event :=
+  [.new, .feed (headEx5 ++ [13, 10, 13, 10, 97, 98]), .feed [99, 100, 101], .peerClose, .api .readAll]
+
+example : closingEvents evsClFull = true := by decide
+example : ∃ l1 l2, (Sock.run envEx lazyScript.app evsClFull).log = l1 ++ Obs.rcf :: l2 ∧
+    arrivedAt evsClFull l1 = 39 + 5 := by
+  refine ⟨((Sock.run envEx lazyScript.app evsClFull).log.takeWhile (fun o => !Obs.isRcf o)),
+    ((Sock.run envEx lazyScript.app evsClFull).log.dropWhile (fun o => !Obs.isRcf o)).tail, ?_, ?_⟩
+  · decide +kernel
+  · decide +kernel
 
 end Qhttp.C02
